@@ -294,7 +294,7 @@ def run(ck):
         ck.violation(key, "program `%s`: storage cell %s = %s, eager value %s%s"
                      % (" ".join(s[0] for s in P.stmts), f["output"], f["code_value_exact"], f["spec_value_exact"],
                         " (the lazy right-hand side reads an already overwritten cell)" if key.startswith("aliasing:") else
-                        " (`x /= s` multiplies by `1 / s`, computed in the type of `s`: 0 for an integer; patch: patches/C17-divide-by-integer-scalar.diff)" if key == K_DIV else
+                        " (`x /= s` multiplies by `1 / s`, computed in the type of `s`: 0 for an integer; fixed in /repo by 92c9bba5d, see patches/C17-divide-by-integer-scalar.diff)" if key == K_DIV else
                         " (no harmful aliasing in this program: the expression templates or a view's cell map are wrong)"), rep, True)
     if not res.ok:
         # a program obligation that no longer checks: look for a failing input of that program (same key as a
